@@ -53,6 +53,10 @@ def _genby(case):
     return case['genby']
 
 
+def _in_domain(case):
+    return U.in_domain(case) and (case['spec'].get('type') is None or case['spec']['type'] in U.VOCAB)
+
+
 def run_impl(case):
     try:
         t, st = _build(case)
@@ -70,7 +74,7 @@ def run_impl(case):
         except Exception as e:      # the decoder must not hide a malformed file behind its own crash
             rep = {'problems': ['spec decoder could not read the file: %s: %s' % (type(e).__name__, str(e)[:120])],
                    'csr': None, 'csc': None, 'shape': None, 'nnz': None, 'ids': {}, 'md_entries': {}}
-        return {'write': 'ok', 'file': tree,
+        return {'write': 'ok', 'file': tree, 'in_domain': _in_domain(case),
                 'spec': {'problems': rep['problems'], 'csr': rep['csr'], 'csc': rep['csc']},
                 'seen': {'shape': rep['shape'], 'nnz': rep['nnz'], 'ids': rep['ids'], 'md_entries': rep['md_entries']}}
     finally:
@@ -98,7 +102,7 @@ def decode(tree, case):
     def ents(ax):
         pre = '%s/metadata/' % ax
         return {k[len(pre):]: v['shape'] for k, v in f['dsets'].items() if k.startswith(pre)}
-    return {'write': 'ok', 'file': f,
+    return {'write': 'ok', 'file': f, 'in_domain': bool(tree[3]),
             'spec': {'problems': [] if csr is not None and csc is not None else ['model: the Coq spec decoder refuses the file'],
                      'csr': csr, 'csc': csc},
             'seen': {'shape': f['attrs']['shape'][1], 'nnz': f['attrs']['nnz'][1],
@@ -164,7 +168,7 @@ def nontrivial(case):
 
 
 def classify(case):
-    return U.classify_case(case) + [U.layout_tag(_state(case))]
+    return U.classify_case(case) + [U.layout_tag(_state(case)), 'theorem-domain:%s' % ('inside' if _in_domain(case) else 'outside')]
 
 
 def shrink(case):
